@@ -111,7 +111,7 @@ package broker
 //@   ensures [C14.load_establishes_group_invariant] result0 != nil && !old(has(c.groups, groupID)) ==> groupInv(result0)
 //@   ensures [C13.load_adds_only_requested_group] forall g string :: g != groupID || old(has(c.groups, groupID)) ==> has(c.groups, g) == old(has(c.groups, g)) && mapval(c.groups, g) == old(mapval(c.groups, g))
 //@   ensures coordOK(c) && c.groups == old(c.groups) && c.store == old(c.store) && groupsUntouched()
-//@   ensures keepsMem("string") && keepsMem("assignmentTopic") && keepsMem("int32")
+//@   ensures keepsMem("string") && keepsMem("assignmentTopic") && keepsMem("int32") && keepsMapLen(c.groups) && (old(has(c.groups, groupID)) ==> keepsMapLen())
 
 //@ func (c *GroupCoordinator) persistGroupLocked
 //@   nullable state
@@ -176,7 +176,7 @@ package broker
 //@   ensures forall g string :: g != groupID || old(has(c.groups, groupID)) ==> has(c.groups, g) == old(has(c.groups, g)) && mapval(c.groups, g) == old(mapval(c.groups, g))
 //@   ensures [C14.new_group_satisfies_invariant] err == nil && !old(has(c.groups, groupID)) ==> groupInv(result0)
 //@   ensures coordOK(c) && c.groups == old(c.groups) && c.store == old(c.store) && groupsUntouched()
-//@   ensures keepsMem("string") && keepsMem("assignmentTopic") && keepsMem("int32")
+//@   ensures keepsMem("string") && keepsMem("assignmentTopic") && keepsMem("int32") && keepsMapLen(c.groups) && (old(has(c.groups, groupID)) ==> keepsMapLen())
 
 // encodeMemberSubscriptions: one entry per current member (each member id occurs, nothing else occurs).
 //@ func (c *GroupCoordinator) encodeMemberSubscriptions
